@@ -261,7 +261,7 @@ func runC06(c *Ctx, r *Rec) {
 	r.floor("D1-waitgroup-pairing", 3)
 	r.floor("D2-closure-propagation", 3)
 	r.floor("D3-distribution", 3)
-	r.floor("D4-loop-progress", 8)
+	r.floor("D4-loop-progress", 1)
 }
 
 func firstStmt(b *ast.BlockStmt) ast.Stmt {
